@@ -26,3 +26,8 @@ claim("C02", "emission reconstruction of the constant server runtime + go/types 
       "Structural: the go-http runtime text is rebuilt from the generator's syntax tree (it is a constant of the source), type-checked, and analysed as a program: no CFG path of the BindingMiddleware handler binds URL values, resets the message by decoding the body, and dispatches; every dispatching path has bound path and query parameters for every verb; binder failures end in an error response and return; violations name the field; the string conversion table pairs each kind with its parser, bit size and constructor; the TS server and OpenAPI bind/declare query parameters for every verb. Value semantics of strconv and percent-decoding are not decided.",
       "Library facts: protojson/proto Unmarshal reset their target; generated messages implement proto.Message. protovalidate is a 4-symbol stub for type-checking.",
       "DESIGN.md 5/C02")
+
+claim("C09", "typed analysis of the reconstructed server runtime (go/cfg precedence, loop shape, merge order) + finite table comparison of header type/format vocabularies across Go, TS and OpenAPI",
+      "Structural: validateHeaders precedes every body read and the dispatch on every CFG path of the emitted handler and its failure arm writes the violation and returns; the validation loop reports every offending header under its name; the merge stores required method headers over service headers under one key; for every declared (type, format) pair from the union of the three vocabularies the constraint class each server enforces is implied by what the OpenAPI parameter publishes (the OpenAPI side is evaluated by walking mapHeaderTypeToOpenAPI / convertHeadersToParameters with the pair fixed); TS route and OpenAPI use the override merge; header literals carry all seven fields. Accept/reject sets of the individual validators over header VALUES are not decided.",
+      "http.Header.Get canonicalises names; TypeScript is read lexically (case labels), not type-checked.",
+      "DESIGN.md 5/C09")
